@@ -4,6 +4,7 @@ import Jap.Lemmas.Styles
 import Jap.Lemmas.StylesParse
 import Jap.Gen.SetDefaultsLoop
 import Jap.Gen.SignatureOptional
+import Jap.Gen.MoveParserRequired
 /-!
 # C07 — equivalent ways of declaring a nested group behave identically
 
@@ -183,6 +184,34 @@ theorem C07_set_defaults_all_entries (pre : List String) (D : DMap) (t : TableR)
 theorem C07_set_defaults_continue :
     Jap.Gen.SetDefaultsLoop.branchLeavesLoop = false ∧ Jap.Gen.SetDefaultsLoop.branchEndsWithContinue = true
     ∧ Jap.Gen.SetDefaultsLoop.branchRecurses = true ∧ Jap.Gen.SetDefaultsLoop.loopBodyLeaves = false := by
+  decide
+
+/-! ### where the inner-parser style takes its required keys from
+
+`ActionParser._move_parser_actions` hands the outer parser `{prefix + "." + x for x in subparser.required_args}`: the inner
+parser's required SET, whatever put a key there.  `required_args` is written by `add_argument(required=True)` (which also flags
+the action `_required`), but also WITHOUT any flag by `_create_group_if_requested(required=True)` — i.e. by
+`add_subclass_arguments(Base, key, required=True)` — and link targets are removed from it while their flag stays.  The model
+has the set only (`Table.required`, `TableR.required`), and `moved` maps exactly that set. -/
+
+/-- **C07_moved_required.**  The required keys of an inner parser attached under `n` are the inner parser's required keys with
+    the prefix — all of them and nothing else, for every inner table (however its required set came about). -/
+theorem C07_moved_required (n : String) (t : TableR) : (t.moved n).required = t.required.map (n :: ·) := rfl
+
+/-- the same for the flat tables: `declInnerParser` carries over the required set of the inner `add_argument`s -/
+theorem C07_moved_required_flat (key : String) (fields : List Field) :
+    (declInnerParser key fields).required
+      = (((fields.map fun f => addArgument f.name f.name f.ty f.default).map (·.2)).flatten).map (fun x => key ++ "." ++ x) := rfl
+
+/-- the extractor tie: in `_move_parser_actions` the name `required_args` is assigned once, the set comprehension
+    `{prefix + '.' + x for x in subparser.required_args}` (no filter), it is what `parser.required_args.update` receives, nothing
+    else writes to the outer parser's `required_args`, and the `_required` flags of the actions are not read -/
+theorem C07_inner_required_source :
+    Jap.Gen.MoveParserRequired.requiredArgsAssigned = ["{prefix + '.' + x for x in subparser.required_args}"]
+    ∧ Jap.Gen.MoveParserRequired.prefixedInnerRequiredSet = true
+    ∧ Jap.Gen.MoveParserRequired.outerUpdates = ["required_args"]
+    ∧ Jap.Gen.MoveParserRequired.otherWritesToOuterRequired = []
+    ∧ Jap.Gen.MoveParserRequired.readsRequiredFlag = false := by
   decide
 
 /-- **C07_same_table (recursive grammar, declared defaults).**  For every key, every defaults mapping and every recursive field
